@@ -10,6 +10,7 @@ assignments and macros, discard/difference_update for imports), underscore names
 exported; the loader function matches the template expression's shape and
 get_or_select_template dispatches on str / Undefined / Template / iterable; parser defaults
 match the documentation; building a child context never stores into a dict the caller owns.
+Also: Context.get_all overlays vars on parent; dump_stores hands out the innermost visible binding.  
 Not decided: contents of included templates / modules.
 """
 
